@@ -90,6 +90,16 @@ Theorem C01_exec_shape : forall s n ok,
 Proof. exact exec_shape. Qed.
 Print Assumptions C01_exec_shape.
 
+(* the handler runs after the parked claim was deleted: a nested executeClaim for the same nonce is refused *)
+Theorem C01_exec_not_reentrant : forall s n s1 ok,
+  exec_begin s n = Some s1 ->
+  exec_begin s1 n = None /\ exec s1 n ok = (s1, Err E_NoClaim) /\
+  (fst (exec s n true)) = {| proposal := proposal s1; oracles := oracles s1; by_bridger := by_bridger s1; by_ext := by_ext s1;
+                            last_total := last_total s1; last_obs := last_obs s1; last_by := last_by s1; atts := atts s1;
+                            pending := pending s1; applied := applied s1; effects := effects s1 ++ [n]; vlog := vlog s1 |}.
+Proof. exact exec_not_reentrant. Qed.
+Print Assumptions C01_exec_not_reentrant.
+
 Theorem C01_executed_never_pending : forall c h n,
   In n (effects (run c init h)) -> aget Z.eqb n (pending (run c init h)) = None.
 Proof. exact executed_never_pending. Qed.
